@@ -94,6 +94,95 @@ def gen_case(rng, tier, budget=500_000, big=False):
     return build([kind, depth, pad, font, logo, layout, mx, my], [tab, sb, w, h, fg, bg] + list(marker), ops), note
 
 
+def gen_edge(rng, kind=None, huge=False):
+    """consoles whose row / column / cell count crosses a narrow-integer boundary (63..65, 127..129, 255..257 rows or
+    columns; with huge=True more than 2^16 cells, monitor-only), with content in the last rows / columns, scrolls after the
+    scrollback is used up, and deactivate / write / activate cycles while the cursor is far down the screen"""
+    EDGE = c17.EDGE + [66, 70]
+    kind = kind or rng.choice(['tall', 'tall', 'wide'])
+    depth = pad = font = logo = layout = mx = my = 0
+    fg, bg = 7, 0
+    if huge:
+        ck = rng.choice([0, 1, 1, 1])
+        w, h = rng.choice([(300, 250), (257, 256), (256, 257), (65537, 1), (1, 65537), (256, 256), (255, 257), (512, 129), (40, 1700)])
+        sb = rng.choice([0, 0, 1, 2])
+    else:
+        ck = rng.choice([0, 1, 1, 2])
+        if kind == 'tall':
+            w, h = rng.randrange(1, 5), rng.choice(EDGE)
+        else:
+            w, h = rng.choice(EDGE), rng.randrange(1, 4)
+        sb = rng.choice([0, 0, 1, 2, 3])
+        if ck == 2:
+            depth, pad, layout = rng.choice([8, 15, 16, 24, 32]), rng.choice([0, 3]), rng.randrange(2)
+            mx, my = rng.choice([0, 3]), rng.choice([0, 5])
+    if ck == 0:
+        fg, bg = rng.choice([(7, 0), (rng.randrange(256), rng.randrange(256))])
+    tab = rng.choice([0, 1, 4, 8])
+    size = w * (h + sb) * 3
+    per_byte = 3 * size // 2 + 60 + (0 if huge else 2 * w * h)
+    redraw = 0 if huge else 3 * w * h * size // 2 + 2 * (w * h) ** 2
+    left = 40_000_000
+    ops = []
+
+    def afford(c):
+        nonlocal left
+        if huge:
+            return True
+        if c > left:
+            return False
+        left -= c
+        return True
+
+    def near_end(n):
+        return max(1, n - rng.choice([0, 0, 1, 2, 3, rng.randrange(0, n)]))
+
+    def line():
+        return c17.printable(rng, rng.randrange(0, min(w, 3) + 1)) + [10]
+
+    state = 0
+
+    def set_state(st):
+        nonlocal state
+        if st == 1 and state != 1 and not afford(redraw):
+            return
+        state = st
+        ops.append((4, st))
+
+    if rng.random() < 0.8:
+        set_state(1)
+    for _ in range(rng.randrange(5, 14)):
+        r = rng.random()
+        if r < 0.22:
+            # short lines all the way down (and beyond: scrollback, then scrolling)
+            n = rng.choice([h - 1, h, h + sb, h + sb + 2]) if not huge else rng.randrange(1, 4)
+            bs = [b for _ in range(max(1, n)) for b in line()]
+            if huge:
+                ops.append((3, 1, near_end(h)))
+            if afford(len(bs) * per_byte):
+                ops.append((1, bs))
+        elif r < 0.45:
+            # a few bytes in the last rows / columns
+            bs = c17.printable(rng, rng.randrange(1, 6))
+            if afford(len(bs) * per_byte):
+                ops += [(3, near_end(w), near_end(h)), (1, bs)]
+        elif r < 0.60:
+            # line feeds from a late row
+            n = rng.choice([1, 2, sb + 1, sb + 3])
+            if afford(n * (per_byte + 8 * size)):
+                ops += [(3, rng.choice([1, near_end(w)]), near_end(h)), (1, [10] * n)]
+        elif r < 0.70:
+            if afford(6 * per_byte):
+                ops += [(3, near_end(w), near_end(h)), (1, [8, 9] + c17.printable(rng, 2))]
+        else:
+            # deactivate / activate (most of the time a real flip)
+            set_state(rng.choice([1 - state if state in (0, 1) else 1, 1 - state if state in (0, 1) else 0, 0, 1, 2]))
+    if state != 1 and rng.random() < 0.7:
+        set_state(1)
+    note = 'edge:' + ('huge-' if huge else '') + ['cell', 'vga', 'vesa%d' % depth][ck]
+    return build([ck, depth, pad, font, logo, layout, mx, my], [tab, sb, w, h, fg, bg, 0x58, 14, 4], ops), note
+
+
 class C18(flow.Spec):
     prop = 'C18'
     props_files = ['theories/Props/C18.v', 'theories/Props/C18_text.v', 'theories/Props/C18_examples.v']
@@ -120,7 +209,10 @@ class C18(flow.Spec):
 
     def gen_cases(self, rng, tier):
         n = {'quick': 1500, 'thorough': 30000, 'search': 3000}[tier]
-        return [gen_case(rng, tier) for _ in range(n)]
+        out = [gen_case(rng, tier) for _ in range(n)]
+        m = {'quick': 60, 'thorough': 1500, 'search': 150}[tier]
+        out += [gen_edge(rng) for _ in range(m)]
+        return out
 
     def classify(self, nums, note):
         return note
@@ -132,6 +224,9 @@ class C18(flow.Spec):
         cases = []
         for i in range(n):
             nums, note = gen_case(rng, ctx['tier'], budget=30_000_000, big=True)
+            cases.append((nums, 'soak:' + note))
+        for i in range(12 if ctx['tier'] == 'quick' else 150):
+            nums, note = gen_edge(rng, huge=True)
             cases.append((nums, 'soak:' + note))
         return c17.soak(self, ctx, cases)
 
@@ -193,8 +288,10 @@ class C18(flow.Spec):
                 yield build(list(cons[:2]) + [0] + list(cons[3:]), term, ops)
         if w > wmin:
             yield build(cons, [tab, sb, w - 1, h] + list(term[4:]), ops)
+            yield build(cons, [tab, sb, max(wmin, w // 2), h] + list(term[4:]), ops)
         if h > 1:
             yield build(cons, [tab, sb, w, h - 1] + list(term[4:]), ops)
+            yield build(cons, [tab, sb, w, max(1, h // 2)] + list(term[4:]), ops)
 
 
 if __name__ == '__main__':
